@@ -866,6 +866,26 @@ static void cfg_init_defaults(cfg_t *cfg)
 	}
 }
 
+/* a numeral after a radix prefix: digits of that radix only, at least one */
+static int cfg_is_digits(const char *s, int radix)
+{
+	if (!*s)
+		return 0;
+
+	for (; *s; s++) {
+		int d = radix;
+
+		if (isdigit((unsigned char)*s))
+			d = *s - '0';
+		else if (isalpha((unsigned char)*s))
+			d = tolower((unsigned char)*s) - 'a' + 10;
+		if (d >= radix)
+			return 0;
+	}
+
+	return 1;
+}
+
 DLLIMPORT cfg_value_t *cfg_setopt(cfg_t *cfg, cfg_opt_t *opt, const char *value)
 {
 	cfg_value_t *val = NULL;
@@ -965,11 +985,15 @@ DLLIMPORT cfg_value_t *cfg_setopt(cfg_t *cfg, cfg_opt_t *opt, const char *value)
 						break;
 					default:
 						radix = 8;
-						int_str = &value[1];
+						int_str = value;
 				}
 			}
 			errno = 0;
 			i = strtol(int_str, &endptr, radix);
+			if (radix ? !cfg_is_digits(int_str, radix) : endptr == int_str) {
+				cfg_error(cfg, _("invalid integer value for option '%s'"), opt->name);
+				return NULL;
+			}
 			if (*endptr != '\0') {
 				cfg_error(cfg, _("invalid integer value for option '%s'"), opt->name);
 				return NULL;
